@@ -364,7 +364,13 @@ where
                                 ctid: self.ctid.to_owned(),
                             }),
                             payload,
-                            payload_text: Some(cap_str[loc_timestamp.1 + 1..].to_owned()),
+                            payload_text: Some(
+                                // skip the (one) whitespace after the timestamp (\s can be a multi-byte char)
+                                cap_str[loc_timestamp.1..]
+                                    .strip_prefix(char::is_whitespace)
+                                    .unwrap_or(&cap_str[loc_timestamp.1..])
+                                    .to_owned(),
+                            ),
                             lifecycle: 0,
                         };
 
@@ -461,7 +467,13 @@ where
                                     ctid: self.ctid.to_owned(),
                                 }),
                                 payload,
-                                payload_text: Some(cap_str[loc_timestamp.1 + 1..].to_owned()),
+                                payload_text: Some(
+                                    // skip the (one) whitespace after the timestamp (\s can be a multi-byte char)
+                                    cap_str[loc_timestamp.1..]
+                                        .strip_prefix(char::is_whitespace)
+                                        .unwrap_or(&cap_str[loc_timestamp.1..])
+                                        .to_owned(),
+                                ),
                                 lifecycle: 0,
                             };
 
